@@ -157,6 +157,12 @@ def mips_programs(rnd):
     for off in (56, 60):
         ws = [rnd.choice(body) for _ in range(off // 4)] + [beq(4, 0, 2), addiu(2, 2, 5), addiu(3, 3, 1), addiu(3, 3, 2), jr_ra, nop]
         progs.append((f"branch@{off}", ws))
+    # every conditional branch kind in the last word of the window (the window check lists them one by one)
+    kinds = {"bne": bne(4, 0, 2), "blez": (0x06 << 26) | (4 << 21) | 2, "bgtz": (0x07 << 26) | (4 << 21) | 2, "bltz": (0x01 << 26) | (4 << 21) | 2,
+             "bgez": (0x01 << 26) | (4 << 21) | (1 << 16) | 2, "bal": (0x01 << 26) | (0x11 << 16) | 2, "jal": (0x03 << 26) | ((0x1000 + 18 * 4) >> 2)}
+    for name, w in kinds.items():
+        ws = [rnd.choice(body) for _ in range(15)] + [w, addiu(2, 2, 5), addiu(3, 3, 1), addiu(3, 3, 2), jr_ra, nop]
+        progs.append((f"{name}@60", ws))
     # jump into the middle of an already-lifted block
     progs.append(("into-middle", [addiu(2, 0, 1), addiu(3, 0, 2), addu(2, 2, 3), addiu(4, 4, -1), bne(4, 0, -3), nop, jr_ra, nop]))
     # absolute jump forward over an island
